@@ -19,10 +19,11 @@ import (
 const (
 	kfLock = "C40-account-lock-ignored"              // CREATE USER ... ACCOUNT LOCK creates an unlocked account
 	kfLong = "C40-overlong-native-response-accepted" // a mysql_native_password response longer than 20 bytes is accepted if its first 20 bytes are right
-	// ALTER USER / DROP USER 'u'@'127.0.0.1' act on another account of user u that matches logins
-	// from localhost ('u'@'localhost', 'u'@'%', ...) when one exists: the statement's account name
-	// goes through the login matching of GetUser
-	kfWrongAcct = "C40-alter-drop-user-hits-other-account"
+	// DROP USER 'u'@'127.0.0.1' drops another account of user u that matches logins from localhost
+	// ('u'@'localhost', 'u'@'%', ...) when one exists: the statement's account name goes through
+	// the login matching of MySQLDb.GetUser (rowexec buildDropUser). ALTER USER looks the account
+	// up exactly and is not affected (it is generated in the same situation and must be right).
+	kfWrongAcct = "C40-drop-user-hits-other-account"
 )
 
 func TestMain(m *testing.M) {
@@ -89,10 +90,10 @@ type world struct {
 	accts   []account
 	history []string
 	nontriv bool
-	tainted map[string]bool // user names for which an in-region ALTER/DROP USER ran (kfWrongAcct)
+	tainted map[string]bool // user names for which an in-region DROP USER ran (kfWrongAcct)
 }
 
-// hitsOther: region of kfWrongAcct — the statement names accts[i] with a loopback address as
+// hitsOther: region of kfWrongAcct — DROP USER names accts[i] with a loopback address as
 // host; the engine's lookup rewrites that to localhost, misses the exact entry and then takes
 // whichever account of that user name matches a login from localhost first (possibly another).
 func (w *world) hitsOther(i int) bool {
@@ -108,9 +109,9 @@ func (w *world) hitsOther(i int) bool {
 	return false
 }
 
-// regionAlterDrop reports whether the ALTER/DROP of accts[i] must be skipped (finding listed)
-// and records the taint otherwise.
-func (w *world) regionAlterDrop(i int) bool {
+// regionDrop reports whether the DROP USER of accts[i] must be skipped (finding listed) and
+// records the taint otherwise.
+func (w *world) regionDrop(i int) bool {
 	if !w.hitsOther(i) {
 		return false
 	}
@@ -188,7 +189,7 @@ func (w *world) accountOp() {
 		w.accts = append(w.accts, a)
 	case "alter":
 		i := rapid.IntRange(0, len(w.accts)-1).Draw(rt, "which")
-		if w.accts[i].role || w.regionAlterDrop(i) {
+		if w.accts[i].role {
 			return
 		}
 		w.accts[i].pw = rapid.SampledFrom(pwPool).Draw(rt, "newpw")
@@ -196,7 +197,7 @@ func (w *world) accountOp() {
 		w.st.Class("account:alter-password")
 	case "drop":
 		i := rapid.IntRange(0, len(w.accts)-1).Draw(rt, "which")
-		if w.regionAlterDrop(i) {
+		if !w.accts[i].role && w.regionDrop(i) {
 			return
 		}
 		if w.accts[i].role {
@@ -261,7 +262,7 @@ func (w *world) judge(desc string, user string, accepted bool, currentUser strin
 }
 
 // wrongAcct is the signature of kfWrongAcct: the login uses a user name (or the anonymous
-// fallback) for which an in-region ALTER/DROP USER was executed earlier in the history.
+// fallback) for which an in-region DROP USER was executed earlier in the history.
 func (w *world) wrongAcct(user string) bool {
 	return (w.tainted[user] || w.tainted[""]) && kf.Suppress(w.st, kfWrongAcct)
 }
